@@ -7,11 +7,35 @@
    closure).  Statements only (proofs: Proofs/SrcTriScan.v). *)
 From EG Require Import Base.Prelude Base.Casts Model.Geometry Model.Line Model.Thickline Model.Sectormodel Model.Join.
 From EG Require Import Gen.SrcGeometry Gen.SrcJoin Gen.SrcCircle Gen.SrcLine Gen.SrcScanline Gen.SrcTriangle Gen.SrcSector Gen.SrcTriScan Proofs.SrcTriScan.
+From EG Require Import Model.JoinTri Proofs.SrcScanline Proofs.SrcTriRow.
 
 Theorem C19_src_tri_intersections_next_run : forall f s i ty t w so hf col n, (4 <= n)%nat ->
   src_tri_si_drive n (Build_ScanlineIntersections (Build_LineConfig f s i ty) t w so hf col)
   = nonempty i ty ++ nonempty f PtStroke ++ nonempty s PtStroke.
 Proof. exact src_tri_si_next_run. Qed.
+
+(* round 5: ScanlineIntersections::empty yields nothing *)
+Theorem C19_src_scanline_intersections_empty_yields_nothing :
+  snd (src_ScanlineIntersections_next src_ScanlineIntersections_empty) = None.
+Proof. vm_compute. reflexivity. Qed.
+
+(* round 5: against JoinTri.jt_row itself.  `generate_lines` (a `from_fn` generator, outside the subset) is the HYPOTHESIS that the
+   LineConfig holds the lines jt_row computes: the edge scanlines es of jt_edge_intersections as first / second (an absent one as
+   an empty scanline) and jt_row's internal line (jt_internal, Proofs/SrcTriRow.v: the `internal` of JoinTri.jt_row); under it the
+   items the generated `next` yields, converted field by field (item_of = sl_of x pt_of), are exactly the model's row *)
+Theorem C19_src_tri_row_is_jt_row : forall t w so hf y es f s i tri sw sso hfl col n, (4 <= n)%nat ->
+  jt_edge_intersections t w so y = Some es ->
+  filter (fun x => negb (sl_is_empty x)) [sl_of f; sl_of s] = es ->
+  sl_of i = jt_internal t hf y es ->
+  jt_row t w so hf false y
+  = Some (map item_of (src_tri_si_drive n (Build_ScanlineIntersections (Build_LineConfig f s i PtFill) tri sw sso hfl col))).
+Proof. exact src_tri_row_is_jt_row. Qed.
+Theorem C19_src_tri_row_collapsed_is_jt_row : forall t w so hf y f s i tri sw sso hfl col n, (4 <= n)%nat ->
+  sl_is_empty (sl_of f) = true -> sl_is_empty (sl_of s) = true ->
+  sl_of i = jt_scanline_intersection t y ->
+  jt_row t w so hf true y
+  = Some (map item_of (src_tri_si_drive n (Build_ScanlineIntersections (Build_LineConfig f s i PtStroke) tri sw sso hfl col))).
+Proof. exact src_tri_row_collapsed_is_jt_row. Qed.
 
 Example C19_src_triscan_nonvacuous :
   src_tri_si_drive 4 (Build_ScanlineIntersections (Build_LineConfig (Build_Scanline 3 (1, 4)) (Build_Scanline 3 (9, 9)) (Build_Scanline 3 (4, 8)) PtFill)
